@@ -286,7 +286,7 @@ def build(specs, top, pool=None, cls_suffix=""):
         elif kind == "cmd":
             b.table["/bin/echo %s" % sid] = text_of(elems[0]["lines"])
             impl = e.simple_command("/bin/echo %s" % sid, save_as=_save_as(mode, sid, names[0]), context=HostContext,
-                                    keep_rc=bool(spec.get("keep_rc")))
+                                    keep_rc=bool(spec.get("keep_rc")), split=bool(spec.get("split", True)))
         elif kind == "cmd_real":
             p = write_file("/src/%s/%s" % (sid, names[0]), elems[0]["lines"])
             impl = e.simple_command("/bin/cat %s" % p, save_as=_save_as(mode, sid, names[0]), context=HostContext)
@@ -358,7 +358,7 @@ def build(specs, top, pool=None, cls_suffix=""):
             impl = counted_fn(boom)
         else:
             raise ValueError("unknown kind %r" % kind)
-        points[attr] = sf.RegistryPoint(multi_output=multi, raw=kind in ("raw", "m_raw"))
+        points[attr] = sf.RegistryPoint(multi_output=multi, raw=kind in ("raw", "m_raw") or not spec.get("split", True))
         impls[attr] = impl
 
     pts = dict(points)
@@ -390,7 +390,7 @@ def _content(e, prov):
         c = prov.content
     except e.ContentException:
         return None
-    return c if isinstance(c, bytes) else list(c)
+    return c if isinstance(c, (bytes, str)) else list(c)      # str: unsplit command output (split=False)
 
 
 def collect(b, only=None):
